@@ -1,7 +1,13 @@
 import GN.Props.C03
+import GN.EventLoop.Combined
 open GN.Props.C03
 #print axioms executor_exists_iff_running
 #print axioms executes_only_while_running_or_in_terminate
 #print axioms submission_while_stopped_only_queues
 #print axioms no_double_start
 #print axioms batch_only_while_executing
+#print axioms GN.EventLoop.Combined.job_callback_excludes_runAux
+#print axioms GN.EventLoop.Combined.delivery_and_exec_never_both_enabled
+#print axioms GN.EventLoop.Combined.delivery_only_at_select_or_in_drain
+#print axioms GN.EventLoop.Combined.reach_queue
+#print axioms GN.EventLoop.Combined.reach_ledger
